@@ -436,8 +436,16 @@ impl<'de> serde::de::Visitor<'de> for PropertiesVisitor {
     }
 
     fn visit_seq<S: serde::de::SeqAccess<'de>>(self, mut seq: S) -> Result<Self::Value, S::Error> {
+        use serde::de::Error;
+
         let data = seq.next_element()?;
-        Ok(Properties::encoded(data.unwrap_or(&[])))
+        let properties = Properties::encoded(data.unwrap_or(&[]));
+        // The block is decoded lazily by whoever reads it: refuse the packet now if it does not
+        // decode, before anything is acknowledged or delivered.
+        if properties.iter().any(|property| property.is_err()) {
+            return Err(S::Error::custom("Invalid property block"));
+        }
+        Ok(properties)
     }
 }
 
